@@ -56,10 +56,31 @@ Fixpoint create_loop_tr (w : world) (m c : Z) (f : form) (n : Z) (is : list nat)
   | i :: t => init_ev w m c ++ create_loop_tr (fst (agent_init w m c (pay_at f n i))) m c f n t
   end.
 
+Fixpoint creates_tr (w : world) (m : Z) (l : list (Z * Z)) : trace_t :=
+  match l with
+  | [] => []
+  | cv :: t => init_ev w m (fst cv) ++ creates_tr (fst (agent_init w m (fst cv) (PInt (snd cv)))) m t
+  end.
+
+(* agent.remove() with dynamic dispatch: the constructor calls of an overriding remove() are events too *)
+Definition obj_remove_tr (w : world) (k : Z) : trace_t :=
+  match find_agent (w_born w) k with
+  | None => []
+  | Some a =>
+      match ov_of (a_cls a) with
+      | None => dereg_ev w k
+      | Some o =>
+          let w1 := creates w (a_model a) (ov_pre o) in
+          let w2 := if ov_super o then agent_remove w1 k else w1 in
+          creates_tr w (a_model a) (ov_pre o) ++ (if ov_super o then dereg_ev w1 k else []) ++
+          creates_tr w2 (a_model a) (ov_post o)
+      end
+  end.
+
 Fixpoint fold_remove_tr (l : list Z) (w : world) : trace_t :=
   match l with
   | [] => []
-  | k :: t => dereg_ev w k ++ fold_remove_tr t (agent_remove w k)
+  | k :: t => obj_remove_tr w k ++ fold_remove_tr t (obj_remove w k)
   end.
 
 Definition remove_all_tr (w : world) (m : Z) : trace_t :=
@@ -68,8 +89,8 @@ Definition remove_all_tr (w : world) (m : Z) : trace_t :=
 Definition exec_act_tr (w : world) (self : Z) (a : act) : trace_t :=
   match a with
   | ANop => []
-  | ARemoveSelf => dereg_ev w self
-  | ARemove k => dereg_ev w k
+  | ARemoveSelf => obj_remove_tr w self
+  | ARemove k => obj_remove_tr w k
   | ACreate m c v => init_ev w m c
   | ACreateMany m c n f => create_loop_tr w m c f n (seq 0 (Z.to_nat n))
   | ARemoveAll m => remove_all_tr w m
@@ -86,7 +107,12 @@ Definition op_tr (w : world) (o : op) : trace_t :=
   | NewModel => []
   | Create m c v => init_ev w m c
   | CreateMany m c n f => create_loop_tr w m c f n (seq 0 (Z.to_nat n))
-  | Remove k | Deregister k => dereg_ev w k
+  | Remove k =>
+      match find_agent (w_born w) k with
+      | None => []
+      | Some a => match getm (w_models w) (a_model a) with None => [] | Some _ => obj_remove_tr w k end
+      end
+  | Deregister k => dereg_ev w k
   | RemoveAll m => remove_all_tr w m
   | ReorderAll m order =>
       match getm (w_models w) m with
@@ -182,10 +208,24 @@ Proof.
   - eapply Tr_trans; eassumption.
 Qed.
 
-Lemma Tr_fold_remove l : forall w, Tr w (fold_remove_tr l w) (fold_left agent_remove l w).
+Lemma Tr_creates m l : forall w, Tr w (creates_tr w m l) (creates w m l).
+Proof.
+  unfold creates. induction l as [|cv t IH]; intros w; simpl; [apply Tr_refl|].
+  eapply Tr_trans; [apply Tr_init|apply IH].
+Qed.
+
+Lemma Tr_obj_remove w k : Tr w (obj_remove_tr w k) (obj_remove w k).
+Proof.
+  unfold obj_remove_tr, obj_remove. destruct (find_agent (w_born w) k) as [a|]; [|apply Tr_refl].
+  destruct (ov_of (a_cls a)) as [o|]; [|apply Tr_dereg].
+  eapply Tr_trans; [apply Tr_creates|]. eapply Tr_trans; [|apply Tr_creates].
+  destruct (ov_super o); [apply Tr_dereg|apply Tr_refl].
+Qed.
+
+Lemma Tr_fold_remove l : forall w, Tr w (fold_remove_tr l w) (fold_left obj_remove l w).
 Proof.
   induction l as [|k t IH]; intros w; simpl; [apply Tr_refl|].
-  eapply Tr_trans; [apply Tr_dereg|apply IH].
+  eapply Tr_trans; [apply Tr_obj_remove|apply IH].
 Qed.
 
 Lemma Tr_remove_all w m : Tr w (remove_all_tr w m) (remove_all w m).
@@ -197,8 +237,8 @@ Lemma Tr_exec_act w self a : Tr w (exec_act_tr w self a) (exec_act w self a).
 Proof.
   destruct a; simpl.
   - apply Tr_refl.
-  - apply Tr_dereg.
-  - apply Tr_dereg.
+  - apply Tr_obj_remove.
+  - apply Tr_obj_remove.
   - apply Tr_init.
   - apply Tr_create_loop.
   - apply Tr_remove_all.
@@ -223,7 +263,8 @@ Proof.
       { induction is as [|i t IH]; intros w0 H0; simpl; [reflexivity|].
         unfold init_ev at 1. rewrite H0. simpl. apply IH. unfold agent_init. rewrite H0. exact H0. }
       rewrite Hnil by exact Eg. apply Tr_refl.
-  - pose proof (Tr_dereg w k) as H. destruct (deregister_obj w k) as [w' [b|]]; exact H.
+  - destruct (find_agent (w_born w) k) as [a|]; [|apply Tr_refl].
+    destruct (getm (w_models w) (a_model a)); [|apply Tr_refl]. apply Tr_obj_remove.
   - pose proof (Tr_dereg w k) as H. destruct (deregister_obj w k) as [w' [[|]|]]; exact H.
   - unfold remove_all_tr. destruct (getm (w_models w) m) eqn:Eg; [|apply Tr_refl].
     pose proof (Tr_remove_all w m) as H. unfold remove_all_tr in H. rewrite Eg in H. exact H.
